@@ -9,9 +9,9 @@ SESSION = os.path.join(common.VERIF, "harness", "memsession.py")
 KEYVAL = {"a": 3, "b": 4}
 
 
-def mcfg(name, gen=False, maxops=6, procs=(1, 2), slots=(1, 2), stores=(1,), fix=(True, True, True, True), invariants=("ValueCorrect",), props=("HitWhenDue",)):
+def mcfg(name, gen=False, maxops=6, procs=(1, 2), slots=(1, 2), stores=(1,), fix=(True, True, True, True, True), aliased=(), invariants=("ValueCorrect",), props=("HitWhenDue",)):
     path = os.path.join(common.VERIF, "out", "cfg", "MD_%s.cfg" % name)
-    consts = dict(Procs=set(procs), Slots=set(slots), Vers={1, 2}, Keys={"a", "b"}, Stores=set(stores), MaxOps=maxops, FixD6=fix[0], FixD13=fix[1], FixD5c=fix[2], FixD20=(fix[3] if len(fix) > 3 else True), Gen=gen)
+    consts = dict(Procs=set(procs), Slots=set(slots), Vers={1, 2}, Keys={"a", "b"}, Stores=set(stores), MaxOps=maxops, FixD6=fix[0], FixD13=fix[1], FixD5c=fix[2], FixD20=(fix[3] if len(fix) > 3 else True), FixD21=(fix[4] if len(fix) > 4 else True), Aliased=set(aliased), Gen=gen)
     if gen:
         tlc.write_cfg(path, constants=consts, init="Init", next="Next", constraint="Emit")
     else:
@@ -20,9 +20,9 @@ def mcfg(name, gen=False, maxops=6, procs=(1, 2), slots=(1, 2), stores=(1,), fix
 
 
 class Session:
-    def __init__(self, root, work, kind, stores=(1, 2)):
+    def __init__(self, root, work, kind, stores=(1, 2), alias=()):
         env = dict(os.environ, PYTHONPATH=os.environ.get("VERIF_REPO", "/repo"), PYTHONHASHSEED="0", PYTHONDONTWRITEBYTECODE="1")
-        self.p = subprocess.Popen([PY, "-u", SESSION, json.dumps({"root": root, "work": work, "kind": kind, "stores": list(stores), "log": os.path.join(root, "..", "exec.log")})], env=env,
+        self.p = subprocess.Popen([PY, "-u", SESSION, json.dumps({"root": root, "work": work, "kind": kind, "stores": list(stores), "alias": list(alias), "log": os.path.join(root, "..", "exec.log")})], env=env,
                                   stdin=subprocess.PIPE, stdout=subprocess.PIPE, stderr=subprocess.PIPE, text=True, bufsize=1)
 
     def do(self, op):
@@ -53,7 +53,8 @@ def evict(root, keyval):
 def replay(args):
     """Replay one model history on a real Memory.  The oracle is property-level: the version tag of the returned value must
     be the version of the code that was called; a call that is due to hit must not execute the body."""
-    hid, hist, kind, base = args
+    hid, hist, kind, base = args[:4]; alias = args[4] if len(args) > 4 else ()
+    ph = lambda st: 1 if st in alias else st
     d = os.path.join(base, "h%d" % hid); root = os.path.join(d, "cache"); os.makedirs(root)
     sessions = {}; nsess = [0]
     ocode = {}; must = {}; problems = []; calls = 0
@@ -62,7 +63,7 @@ def replay(args):
         if p not in sessions:
             nsess[0] += 1
             w = os.path.join(d, "work%d" % nsess[0]); os.makedirs(w)
-            sessions[p] = Session(root, w, kind)
+            sessions[p] = Session(root, w, kind, alias=alias)
         return sessions[p]
     try:
         for n, e in enumerate(hist):
@@ -78,11 +79,11 @@ def replay(args):
                 r = {}
             elif op == "clear":
                 r = sess(e["p"]).do({"op": "clear", "i": e["i"], "s": e.get("s", 1)})
-                for kk in [kk for kk in must if kk[0] == e.get("s", 1)]: del must[kk]
+                for kk in [kk for kk in must if kk[0] == ph(e.get("s", 1))]: del must[kk]
             elif op == "evict":
-                evict(os.path.join(root, "store%s" % e.get("s", 1)), KEYVAL[e["k"]]); must.pop((e.get("s", 1), e["k"]), None); r = {}
+                evict(os.path.join(root, "store%s" % ph(e.get("s", 1))), KEYVAL[e["k"]]); must.pop((ph(e.get("s", 1)), e["k"]), None); r = {}
             elif op in ("call", "force"):
-                v = ocode[(e["p"], e["i"])]; st = e.get("s", 1); k = (st, e["k"]); calls += 1
+                v = ocode[(e["p"], e["i"])]; st = e.get("s", 1); k = (ph(st), e["k"]); calls += 1
                 r = sess(e["p"]).do({"op": op, "i": e["i"], "s": st, "k": KEYVAL[e["k"]]})
                 if "exc" not in r:
                     if r["value"] != ["v%d" % v, KEYVAL[e["k"]]]:
@@ -91,8 +92,8 @@ def replay(args):
                         problems.append({"kind": "forced_call_not_executed", "step": n, "called_version": v})
                     elif op == "call" and must.get(k) == v and r["executed"]:
                         problems.append({"kind": "executed_although_cached", "step": n, "called_version": v})
-                    if any(mv != v for kk, mv in must.items() if kk[0] == st):
-                        for kk in [kk for kk in must if kk[0] == st]: del must[kk]
+                    if any(mv != v for kk, mv in must.items() if kk[0] == ph(st)):
+                        for kk in [kk for kk in must if kk[0] == ph(st)]: del must[kk]
                     must[k] = v
             if "exc" in r:
                 problems.append({"kind": "exception", "step": n, "op": e, "exc": r["exc"], "msg": r.get("msg")})
@@ -115,8 +116,10 @@ def body(c):
     # shortcut of one cannot see that the other rewrote the stored source
     r = c.model_check("MemoryDesign[two live processes - documented limit]", "MemoryDesign", mcfg("limit2", maxops=5), must_hold=False, workers=16)
     sens.append("two simultaneously live processes with different versions -> %s (documented limit, not claimed)" % (r.violated,))
-    for nm, fx in (("D6_off", (False, True, True)), ("D13_off", (True, False, True)), ("D20_off", (True, True, True, False))):
-        r = c.model_check("MemoryDesign[%s]" % nm, "MemoryDesign", mcfg(nm, maxops=6, fix=fx, procs=(1,)), must_hold=False, workers=16)
+    c.model_check("MemoryDesign[one directory under two spellings,6ops]", "MemoryDesign", mcfg("mc6alias", maxops=6, procs=(1,), stores=(1, 2), aliased=(2,)), workers=16)
+    for nm, fx in (("D6_off", (False, True, True)), ("D13_off", (True, False, True)), ("D20_off", (True, True, True, False)), ("D21_off", (True, True, True, True, False))):
+        kw = dict(stores=(1, 2), aliased=(2,)) if nm == "D21_off" else {}
+        r = c.model_check("MemoryDesign[%s]" % nm, "MemoryDesign", mcfg(nm, maxops=6, fix=fx, procs=(1,), **kw), must_hold=False, workers=16)
         if r.ok: raise tlc.TLCError("MemoryDesign lost its sensitivity to %s" % nm)
         sens.append("%s -> %s" % (nm, r.violated))
     c.extra["model_sensitivity"] = sens
@@ -134,6 +137,10 @@ def body(c):
                 depth=12, seed=c.seed + 5, workers=1, timeout=900)
     c.add_tlc("MemoryDesign-simulate[two stores]", r)
     h2 += tlc.printed_json(r)
+    r = tlc.run("MemoryDesign", mcfg("gen4", gen=True, maxops=6 if c.quick else 8, procs=(1,), slots=(1, 2), stores=(1, 2), aliased=(2,)), simulate="num=%d" % (300 if c.quick else 3000),
+                depth=12, seed=c.seed + 9, workers=1, timeout=900)
+    c.add_tlc("MemoryDesign-simulate[one directory, two spellings]", r)
+    h3 = [h for h in tlc.printed_json(r) if sum(1 for e in h if e["op"] in ("call", "force")) >= 2 and len({e.get("s") for e in h if "s" in e}) == 2]
     import random
     rng = random.Random(c.seed)
     # histories without any call teach nothing; keep those with >= 2 calls
@@ -146,6 +153,9 @@ def body(c):
     jobs = []; hid = 0
     for h in h1 + h2:
         jobs.append((hid, h, "module", base)); hid += 1
+    c.extra["histories_two_spellings"] = len(h3)
+    for h in h3:
+        jobs.append((hid, h, "module", base, (2,))); hid += 1
     # other function kinds: single live slot histories (nested / lambda / __main__ script edited in place)
     single = [h for h in h1 if all(e.get("i", 1) == 1 for e in h)]
     per_kind = 60 if c.quick else 600
@@ -158,7 +168,7 @@ def body(c):
     byid = {j[0]: j for j in jobs}
     for hid, calls, problems in results:
         c.evaluations += 1
-        _, hist, kind, _ = byid[hid]
+        _, hist, kind = byid[hid][:3]
         c.nontrivial.add((kind, json.dumps(hist, sort_keys=True)))
         for pb in problems:
             key = {"kind": pb["kind"], "function_kind": kind, "history": [[e["op"]] + [e.get(x) for x in ("p", "i", "v", "s", "k") if x in e] for e in hist]}
